@@ -73,7 +73,7 @@ func (flavor) Oracle(ops []lc.Op, obs []lc.StepObs) []core.Failure {
 		}
 		if o.DLogger != specLogger {
 			fails = append(fails, core.Failure{Class: "default-logger-differs",
-				What: fmt.Sprintf("op %d (%s → %s): caddy.Log() is the default logger set up for operation %d, expected that of operation %d (0 = none / initial): the last accepted configuration's — a config that is rejected or only validated must put the previous default logger back", i, op, o.Res, o.DLogger-1, specLogger-1)})
+				What: fmt.Sprintf("op %d (%s → %s): caddy.Log() is the default logger set up for operation %d, expected that of operation %d (-1 = the one from before the history): the last accepted configuration's — a config that is rejected or only validated must put the previous default logger back", i, op, o.Res, o.DLogger-1, specLogger-1)})
 		}
 		wantRaw := "null"
 		if running != nil {
